@@ -139,6 +139,7 @@ def run(storerun, rng, cfg, tier):
         if reissue:
             op2 = copy.deepcopy(op)
             op2["fault"] = None
+            op2["reissue"] = True
             ops = ops + [op2]
             r.ops = ops
             r.run_one(idx + 1, op2)
@@ -211,6 +212,7 @@ def run(storerun, rng, cfg, tier):
     for k, pl in enumerate(placements):
         op = copy.deepcopy(prod)
         op["fault"] = pl
-        attempt(op, reissue=(k % 3 == 0))
+        pooled = prod["op"] == "coarsen" and prod.get("nproc", 1) > 1
+        attempt(op, reissue=(k % 3 == 0) or (pooled and pl["kind"] in ("F4", "F6")))
         if len(r.violations) > setup_viol + 3:
             break
